@@ -43,11 +43,11 @@ func (s *c01State) seePrice(sqrtP *big.Rat) {
 }
 
 func runC01(c *vk.Ctx) {
-	c.R.Rule = "cases = the common concentrated-liquidity histories (see C07). After EVERY operation: (i) Σ claimable spread rewards / incentives over all positions vs the balances of the two reward accounts; (ii) on three discarded branches (ascending, descending, seed-shuffled position order) every position is claimed (spread rewards, incentives) and fully withdrawn — every message must succeed — and the pool's remaining token balances are measured against the computed rounding-dust bound. A second part evaluates the exported LP-amount functions against exact rationals for rounding direction. distinct_nontrivial counts distinct (operation, #positions bucket, exit order, dust class, any-claimable?) tuples plus (function, roundUp, regime) cells of the direction layer."
+	c.R.Rule = "cases = the common concentrated-liquidity histories (see C07); one history in three has a second concentrated pool whose decimal id begins with the main pool's (1 and 10, pools 2..9 being empty fillers) with its own young positions, incentive records and withdrawals, and incentive claims whose one message lists positions of both pools in either order (the neighbour pool's claimable incentives must be covered by its own incentive account as well). After EVERY operation: (i) Σ claimable spread rewards / incentives over all positions vs the balances of the two reward accounts; (ii) on three discarded branches (ascending, descending, seed-shuffled position order) every position is claimed (spread rewards, incentives) and fully withdrawn — every message must succeed — and the pool's remaining token balances are measured against the computed rounding-dust bound. A second part evaluates the exported LP-amount functions against exact rationals for rounding direction. distinct_nontrivial counts distinct (operation, #positions bucket, exit order, dust class, any-claimable?) tuples plus (function, roundUp, regime) cells of the direction layer."
 	nHist := c.N(480, 1600)
 	opsPer := c.N(40, 150)
 	var st *c01State
-	hooks := clHooks{}
+	hooks := clHooks{neighbour: true}
 	hooks.beforeSwap = func(w *clWorld, zfo, exactIn bool, amount sdkmath.Int) func(clSwapRec) {
 		if st == nil {
 			st = &c01State{feeDustBound: map[string]*big.Rat{}}
@@ -134,6 +134,26 @@ func c01Check(c *vk.Ctx, w *clWorld, op string, st *c01State) bool {
 	if !balInc.IsAllGTE(sumInc) {
 		c.Violate("C01.incentives_covered", sig(), "after %s: Σ claimable incentives %s exceeds the incentive account balance %s", op, sumInc, balInc)
 		return false
+	}
+	if w.nbrID != 0 {
+		// the neighbour pool's incentive account must cover what its positions can claim, too
+		if np, err := k.GetConcentratedPoolById(ctx, w.nbrID); err == nil {
+			sumN := sdk.NewCoins()
+			for id := range w.nbrPos {
+				ci, _, err := k.GetClaimableIncentives(ctx, id)
+				if err != nil {
+					c.Violate("C01.claimable_query", sig(), "after %s: GetClaimableIncentives(%d) (neighbour pool) failed: %v", op, id, err)
+					return false
+				}
+				sumN = sumN.Add(ci...)
+			}
+			if balN := w.ch.AllBal(ctx, np.GetIncentivesAddress()); !balN.IsAllGTE(sumN) {
+				s := sig()
+				s["pool"] = "neighbour"
+				c.Violate("C01.incentives_covered", s, "after %s: in the neighbour pool %d Σ claimable incentives %s exceeds the incentive account balance %s", op, w.nbrID, sumN, balN)
+				return false
+			}
+		}
 	}
 	if len(ps) == 0 {
 		c.Class("%s|empty", op)
